@@ -370,6 +370,10 @@ fn fwd_scenario(rng: &mut Rng, sc: usize, thorough: bool) -> Result<FwdOut, Stri
 			// ---- oracle (i): B never fails upstream an HTLC that C fulfilled
 			if s == "fail" && claim { out.oracle.push(format!("scenario {}: B sent update_fail_htlc upstream for an HTLC the next hop fulfilled", sc)); }
 			if s == "fulfil" && !claim { out.oracle.push(format!("scenario {}: B sent update_fulfill_htlc upstream for an HTLC the next hop failed", sc)); }
+			// ---- oracle (v): the upstream message is released only after the update it rests on is durable: the
+			// fulfil after the upstream PaymentPreimage update, the fail after the downstream revocation update
+			if s == "fulfil" && up == 'p' && pre != 'd' { out.oracle.push(format!("scenario {}: B released update_fulfill_htlc upstream while the upstream PaymentPreimage update was not durable (pre={})", sc, pre)); }
+			if s == "fail" && up == 'p' && raa != 'd' { out.oracle.push(format!("scenario {}: B released update_fail_htlc upstream while the downstream revocation update was not durable (raa={})", sc, raa)); }
 			let c = if s == "fulfil" { 'f' } else { 'x' };
 			if up == 'p' { up = c; out.lines.push((format!("sendUp {}", s), format!("ok {}", line(pre, cs, raa, up)), format!("sendUp:{}", s), true)); }
 			else if up == c { out.lines.push((format!("resendUp {}", s), "ok".into(), format!("resendUp:{}", s), false)); }
@@ -407,7 +411,7 @@ fn main() {
 	let mut rec = Rec::new(&args.out, &args.model);
 	let mut rng = Rng::new(args.seed);
 	if args.model == "c02admit" {
-		let (n_scen, n_cases) = if args.thorough { (60, 400) } else { (12, 130) };
+		let (n_scen, n_cases) = if args.thorough { (60, 400) } else { (16, 160) };
 		for sc in 0..n_scen * args.scale as usize {
 			let mut sub = Rng::new(rng.next());
 			let r = guarded(std::panic::AssertUnwindSafe(|| admit_scenario(&mut sub, &mut rec, sc, n_cases)));
@@ -415,7 +419,7 @@ fn main() {
 		}
 		rec.notes.insert("rule".into(), "3 real nodes A-B-C per scenario, B's forwarding_fee_base_msat / forwarding_fee_proportional_millionths / cltv_expiry_delta drawn per scenario, B's chain tip 0..120 blocks ahead of A's; per case a hand-built route with the first-hop fee at required / -1 / +1 / 0, the first-hop cltv delta at configured / -1 / +1 / 47 / 48, and the final delta placing outCltv around height+LATENCY_GRACE_PERIOD_BLOCKS, inCltv around height+HTLC_FAIL_BACK_BUFFER and height+CLTV_FAR_FAR_AWAY; observed end-to-end (B→C add vs HTLCHandlingFailed local reason); distinct by op text".into());
 	} else {
-		let n_scen = if args.thorough { 1500 } else { 150 } * args.scale as usize;
+		let n_scen = if args.thorough { 3000 } else { 450 } * args.scale as usize;
 		let mut class_hist: BTreeMap<String, u64> = BTreeMap::new();
 		for sc in 0..n_scen {
 			let mut sub = Rng::new(rng.next());
